@@ -61,9 +61,17 @@ def main(p):
     import sigpyproc.io.fileio as fio
     real_cwrite, real_write = fio.FileWriter.cwrite, fio.FileWriter.write
 
+    late = []
+
     def cwrite(self, arr):
+        before = os.path.getsize(self.file_obj.name)
         real_cwrite(self, arr)
         snap(self.file_obj)
+        want = before + (np.asarray(arr).size * self.bitsinfo.nbits) // 8
+        got = os.path.getsize(self.file_obj.name)
+        if got != want:
+            late.append(f"{os.path.basename(self.file_obj.name)}: after cwrite of {np.asarray(arr).size} samples the file holds {got} bytes, not {want} "
+                        "(data handed to the writer is not on disk when the call returns)")
 
     def write(self, bo):
         real_write(self, bo)
@@ -73,7 +81,7 @@ def main(p):
         q.pop("check", None)
         keep = tempfile.mkdtemp()
         out, bad = c07.run(q)
-    bad = [b for b in bad if "raised" in b]
+    bad = [b for b in bad if "raised" in b] + late[:2]
     for name, ss in snaps.items():
         final = ss[-1]
         try:
